@@ -102,6 +102,16 @@ def str_check(prop, tier, seed):
     return engine_check(prop, tier, seed, B.str_run, B.STR_MISMATCH_PROPS, STR_ASSUMPTIONS, "string_driver", "string_check")
 
 
+ENGINE_BINS = {"arena": ("arena_driver", "arena_check"), "vec": ("vec_driver", "vec_check"),
+               "str": ("string_driver", "string_check"), "box": ("box_driver", "box_check")}
+
+
+def tag_engine(d, driver, checker):
+    dr, ck = ENGINE_BINS.get(d.get("engine"), (driver, checker))
+    d["driver"] = dr
+    d["checker"] = ck
+
+
 def engine_check(prop, tier, seed, run_fn, table, assumptions, driver, checker):
     t0 = time.time()
     st = prepare(prop)
@@ -122,8 +132,7 @@ def engine_check(prop, tier, seed, run_fn, table, assumptions, driver, checker):
     run = run_fn(tier, seed) if st["ocaml_ok"] else {"reports": [], "summaries": [], "wall_s": 0, "cached": False}
     spec, mism = B.reports_for(prop, run, table)
     for d in spec + mism:
-        d["driver"] = driver
-        d["checker"] = checker
+        tag_engine(d, driver, checker)
     # 1. spec predicate fails on the implementation: a concrete failing history
     seen_sig = set()
     for d in spec:
@@ -156,8 +165,7 @@ def engine_check(prop, tier, seed, run_fn, table, assumptions, driver, checker):
                     r2 = run_fn(tier, seed + 7919 * extra, extra_tag="_search")
                     s2, _ = B.reports_for(prop, r2, table)
                     for d in s2:
-                        d["driver"] = driver
-                        d["checker"] = checker
+                        tag_engine(d, driver, checker)
                     s2 = [d for d in s2 if not B.known_match(prop, d)]
                     if s2:
                         found = s2[0]
@@ -212,7 +220,18 @@ def engine_check(prop, tier, seed, run_fn, table, assumptions, driver, checker):
     return 1 if violations else 0
 
 
+def multi_check(prop, tier, seed):
+    """C15/C16 quantify over Vec, String and Box: all three engines' reports count"""
+    table = dict(B.VEC_MISMATCH_PROPS)
+    table.update(B.STR_MISMATCH_PROPS)
+    table.update(B.BOX_MISMATCH_PROPS)
+    return engine_check(prop, tier, seed, B.multi_run([B.vec_run, B.str_run, B.box_run]), table,
+                        VEC_ASSUMPTIONS + STR_ASSUMPTIONS + BOX_ASSUMPTIONS, "vec_driver", "vec_check")
+
+
 def check(prop, tier, seed):
+    if prop in ("C15", "C16"):
+        return multi_check(prop, tier, seed)
     if prop in B.ARENA_PROPS:
         return arena_check(prop, tier, seed)
     if prop in B.VEC_PROPS:
